@@ -730,6 +730,7 @@ def eval_msg(ctx, c, rep):
         if bits == "ttl":  # the witness of the recorded finding: the 32 bits of the TSIG RR's TTL field
             lay = ref_layout(w)
             bits = [i for i in range(len(w) * 8) if lay[i // 8] == "tsig.ttl"]
+        bits = [i for i in bits if i < len(w) * 8]
         v = scan_flips(ctx, c, rep, w, keyring, now, rm, bits, f"{key.algorithm}")
         if c["flips"] == "all" and not c["body"].get("update"):
             # (for dynamic updates the verdict on a TSIG RR turned into an ordinary class-ANY record depends on
@@ -831,7 +832,7 @@ def to_wire_options(ctx, c, rep, key, keyring, p, now, rm):
             fail(ctx, "C14/validate/genuine-rejected/to_wire-options", f"{what}: the signed message does not validate: {e!r}", rep)
     CLOCK.t = now
     # prepend_length: two length octets in front of exactly the signed message
-    w = fresh().to_wire(prepend_length=True)
+    w = fresh().to_wire(prepend_length=True, max_size=65535)   # (an EDNS payload in the body would otherwise cap the size)
     if len(w) < 2 or struct.unpack("!H", w[:2])[0] != len(w) - 2:
         fail(ctx, "C14/sign/prepend_length", "to_wire(prepend_length=True): the prefix is not the length of the message", rep)
     else:
@@ -853,9 +854,9 @@ def to_wire_options(ctx, c, rep, key, keyring, p, now, rm):
         ctx.count("route.to_wire.toobig-then-again")
     except BaseException as e:
         fail(ctx, "C14/sign/to_wire-raises:" + type(e).__name__, f"to_wire(max_size=512) raised {e!r}", rep)
-    verify(m.to_wire(), "to_wire() after a to_wire(max_size=512) that may have raised TooBig", p2)
+    verify(m.to_wire(max_size=65535), "to_wire() after a to_wire(max_size=512) that may have raised TooBig", p2)
     # every optional argument of use_tsig omitted: fudge 300, original id = id, no error, no other data
-    w = fresh(defaults=True).to_wire()
+    w = fresh(defaults=True).to_wire(max_size=65535)
     verify(w, "use_tsig(key) with defaults", {"fudge": 300})
     ctx.count("route.to_wire-options")
 
@@ -971,7 +972,10 @@ def eval_reject(ctx, c, rep):
     must_form = False
     if mut == "secret":
         sec = bytearray(key.secret)
-        sec[c["arg"] % len(sec)] ^= 1 << (c["arg"] % 8)
+        if sec:
+            sec[c["arg"] % len(sec)] ^= 1 << (c["arg"] % 8)
+        else:
+            sec = bytearray([1 + c["arg"] % 255])   # the genuine secret is empty: any other secret differs
         keyring = dns.tsig.Key(key.name, bytes(sec), key.algorithm)
     elif mut == "keyname-key":
         keyring = dns.tsig.Key(dns.name.from_text(c["other_name"]), key.secret, key.algorithm)
@@ -1631,6 +1635,7 @@ def gen_msg(rng, flips, alg=None, big=False):
     if big and not body.get("update"):
         # beyond 16 KiB: the TSIG RR starts above 0x3FFF, where no compression pointer can reach
         body["rrs"] = [[rng.choice([1, 2, 3]), f"n{j}.{rng.choice(OWNER_NAMES)}", 60, "TXT", '"' + "t" * 200 + '"'] for j in range(90)]
+        body["edns"] = False   # (an advertised EDNS payload would cap the message size)
     share = body["q"][0] if body.get("q") else "example."
     key = gen_key(rng, share, alg)
     p = gen_tsig(rng, body["id"])
